@@ -1,7 +1,7 @@
 (* C11 -- Differentiable matrices report the true parameter gradients.
    Dual matrices (A, A') with (A,A')(B,B') = (AB, AB' + A'B): the second component of a rational matrix expression is its exact
    directional derivative (Lib/Dual.v).  Which formula each class reports is tied by tie/c11.py.  Statements only. *)
-From Coq Require Import QArith.
+From Coq Require Import QArith Lia.
 Require Import Mici.Lib.QMat Mici.Lib.Dual Mici.Lib.DualGrad.
 Open Scope Q_scope.
 
@@ -60,3 +60,11 @@ Theorem fast_contraction_is_reported_gradient : forall n k Mi F K v c D,
   contract n k (factor_grad n k Mi F K v c) D == factor_contract_fast n k Mi F K v c D.
 Proof. exact factor_contract_fast_correct. Qed.
 Print Assumptions fast_contraction_is_reported_gradient.
+
+(* the hypotheses of the parametrisation theorems are satisfiable: a symmetric 2x2 matrix that is not diagonal and its inverse *)
+Definition M2 : mat := fun i j => match i, j with 0%nat, 0%nat => 2 | 1%nat, 1%nat => 1 | 0%nat, 1%nat => 1 | 1%nat, 0%nat => 1 | _, _ => 0 end.
+Definition M2i : mat := fun i j => match i, j with 0%nat, 0%nat => 1 | 1%nat, 1%nat => 2 | 0%nat, 1%nat => -1 | 1%nat, 0%nat => -1 | _, _ => 0 end.
+Example hypotheses_satisfiable : is_inv 2 M2 M2i /\ meq 2 2 (mtr M2) M2.
+Proof.
+  repeat split; intros i j Hi Hj; destruct i as [|[|i]]; try lia; destruct j as [|[|j]]; try lia; vm_compute; reflexivity.
+Qed.
